@@ -96,7 +96,14 @@ def gen_call(rng):
     elif fn == "#replace":
         args = [s, rand_str(rng, 2), rand_str(rng, 2)]
     elif fn == "#explode":
-        args = [s, rand_str(rng, 2), off] + ([str(rng.randint(0, 4))] if rng.random() < 0.5 else [])
+        if rng.random() < 0.6:
+            # many pieces, a delimiter that occurs, positions from both ends, limits below/at/above the piece count
+            pieces = [rand_str(rng, 2, "abc") for _ in range(rng.randint(1, 6))]
+            delim = rng.choice(["/", " ", "--", "b"])
+            s = delim.join(pieces).strip()
+            args = [s, delim, str(rng.randint(-7, 7))] + ([str(rng.randint(-1, 7))] if rng.random() < 0.7 else [])
+        else:
+            args = [s, rand_str(rng, 2), off] + ([str(rng.randint(0, 4))] if rng.random() < 0.5 else [])
     elif fn in ("padleft", "padright"):
         args = [s, str(rng.randint(0, 14))] + ([rand_str(rng, 3, "ab0")] if rng.random() < 0.8 else [])
     elif fn == "plural":
